@@ -197,7 +197,51 @@ async def script_change_before_arm(hist: History,
     await run_idle(spec, hist, counters)
 
 
-SCRIPTS = {'change-before-arm': script_change_before_arm}
+async def script_lazy_diff(hist: History, counters: dict[str, int]) -> None:
+    """The idler is a slow reader (each drain takes 10-20 loop iterations).
+    The writer sets \\Seen on three messages (three FETCH lines to write),
+    clears it on the third while the idler is still writing the first line,
+    and sets it again: the idler must end up knowing \\Seen on all three."""
+    env = await make_env('dict')
+    loop = asyncio.get_event_loop()
+    try:
+        await provision(env, hist, 3, random.Random(5))
+        idler = Session(env, hist, 1, Sched(1, 0, 0, starve=1,
+                                            starve_delay=20), 1)
+        w = Session(env, hist, 2, Sched(), 2)
+        for s in (idler, w):
+            await s.start()
+            await s.select(b'INBOX')
+            await s.fetch_all()
+        tag = await idler.idle_begin()
+        await loop.quiescent()              # type: ignore[attr-defined]
+        mark = len(idler.conn.responses)
+
+        async def lines(n: int) -> None:
+            # wait until the idler has been written n FETCH lines
+            for _ in range(2000):
+                got = [x for x in idler.conn.responses[mark:]
+                       if x.typ == b'FETCH']
+                if len(got) >= n:
+                    return
+                await asyncio.sleep(0)
+
+        await w.store(b'1:3', False, b'+FLAGS', False, [b'\\Seen'])
+        await lines(1)      # line 1 is out, the idler drains
+        await w.store(b'3', False, b'-FLAGS', False, [b'\\Seen'])
+        await lines(3)      # line 3 is out (computed), the idler drains
+        await w.cmd(b'STORE 3 +FLAGS (\\Seen)', delay=False)
+        await settle(env, loop)
+        truth = await probe_dump(env, hist, b'INBOX')
+        assert truth is not None and tag is not None
+        compare(hist, idler, truth, counters, 'script')
+        await idler.idle_end(tag)
+    finally:
+        env.cleanup()
+
+
+SCRIPTS = {'change-before-arm': script_change_before_arm,
+           'lazy-diff': script_lazy_diff}
 
 
 class C16(Check):
